@@ -21,6 +21,16 @@ KINDS_ALL = ['dict', 'list', 'str', 'int', 'numpy', 'frame', 'generator', 'lazy'
 PARAM_KEYS = ['x', 'y', 'z', 'lr', 'path', 'opt']
 
 param_values = values.json_values(text=values.TEXT_SMALL, max_leaves=5)
+# strings with quotes, separators of the key text and escapes (C12: representation must stay the 1.4.0 one)
+TEXT_KEYISH = st.one_of(values.TEXT_SMALL, st.sampled_from(["'", '"', "a'b", '###', '$$$', 'x=1', "', '", '\\', 'é', ' ', '[]',
+                                                            '{A}', "it's", 'a###b=c', '\n']),
+                        st.text(alphabet="ab'\"#$=,: []{}\\", max_size=6))
+param_values_full = values.json_values(text=TEXT_KEYISH, max_leaves=6)
+VALUE_STRATEGY = {'current': param_values}
+
+
+def _pv():
+    return VALUE_STRATEGY['current']
 
 
 @st.composite
@@ -64,12 +74,16 @@ def programs(draw, max_modules=3, max_tasks=4, kinds=KINDS_BASIC, patterns=True,
                 if flavour == 1:
                     p['ignore'] = True
                 if flavour in (2, 3, 4):
-                    p['default'] = {'v': draw(param_values)}
+                    p['default'] = {'v': draw(_pv())}
                     p['dpdv'] = draw(st.booleans())
                 if flavour == 5 and k == 'path':
                     p['dtype'] = 'Path'
                 if flavour == 6 and objects:
                     p['object'] = draw(st.sampled_from(['Oa', 'Ob']))
+                if flavour == 7:
+                    p['dtype'] = draw(st.sampled_from(['int', 'str', 'list']))
+                    if draw(st.booleans()):
+                        p['default'] = {'v': {'int': 3, 'str': 'dv', 'list': [1]}[p['dtype']]}
                 t['params'].append(p)
             # inputs (only if not a pattern source)
             if not is_pat:
@@ -180,7 +194,7 @@ def value_for(draw, plist):
     if any(p.get('object') for p in plist):
         cls = [p['object'] for p in plist if p.get('object')][0]
         if cls == 'Oa':
-            return {'__object__': 'Oa', 'args': [draw(param_values)], 'kwargs': draw(st.sampled_from([{}, {'y': 1}, {'y': 'q'}]))}
+            return {'__object__': 'Oa', 'args': [draw(_pv())], 'kwargs': draw(st.sampled_from([{}, {'y': 1}, {'y': 'q'}]))}
         kw = {}
         if draw(st.booleans()):
             kw['w'] = draw(st.sampled_from([5, 6, 7]))
@@ -190,7 +204,12 @@ def value_for(draw, plist):
                                                            st.lists(values.small_ints, max_size=3)))], 'kwargs': kw}
     if any(p.get('dtype') == 'Path' for p in plist):
         return draw(st.sampled_from(['/data/x', 'rel/y', '{DATA}/z', '.']))
-    v = draw(param_values)
+    dts = {p['dtype'] for p in plist if p.get('dtype')}
+    if dts:
+        dt = sorted(dts)[0]
+        return draw({'int': st.integers(-3, 9), 'str': values.TEXT_SMALL,
+                     'list': st.lists(values.small_ints, max_size=3)}[dt])
+    v = draw(_pv())
     # default elision compares with Python ==: keep values type-consistent with the defaults they may equal
     from tcv.runtime import canon_param
     for p in plist:
@@ -322,8 +341,64 @@ def contexts(draw, case):
                 for k in draw(st.lists(st.sampled_from(sorted(ks)), min_size=1, max_size=2, unique=True)):
                     entry[k] = draw(value_for(ks[k]))
                 layer['for_ns'][ns] = entry
+        if ks and draw(st.integers(0, 3)) == 0:
+            # nested context `uses` (files), with and without `as ns`; keys disjoint from the parent's at each level
+            layer['nested'] = []
+            for _ in range(draw(st.integers(1, 2))):
+                sub_ns = draw(st.sampled_from([None] + nss)) if nss else None
+                sub = {'form': draw(st.sampled_from(['file_json', 'file_yaml'])), 'global': {}, 'for_ns': {}}
+                for k in draw(st.lists(st.sampled_from(sorted(ks)), min_size=1, max_size=2, unique=True)):
+                    sub['global'][k] = draw(value_for(ks[k]))
+                # drop keys that would collide with the parent's entries at the level they land on
+                level = layer['global'] if sub_ns is None else layer['for_ns'].get(sub_ns, {})
+                sub['global'] = {k: v for k, v in sub['global'].items() if k not in level}
+                for other in layer['nested']:
+                    if other['ns'] == sub_ns:
+                        sub['global'] = {k: v for k, v in sub['global'].items() if k not in other['layer']['global']}
+                layer['nested'].append({'ns': sub_ns, 'layer': sub})
         layers.append(layer)
     return {'layers': layers, 'as_list': len(layers) > 1 or draw(st.booleans())}
+
+
+@st.composite
+def with_multi_config(draw, case):
+    """Rewrite: move 2+ config files into one multi-config file with parts (computation preserving)."""
+    case = copy.deepcopy(case)
+    n = len(case['files'])
+    if n < 2:
+        return case
+    chosen = sorted(draw(st.sets(st.integers(0, n - 1), min_size=2, max_size=min(n, 4))))
+    parts = {}
+    mi = len(case['files'])
+    for fi in chosen:
+        parts[case['files'][fi]['name']] = case['files'][fi]['node']
+    fmt = draw(st.sampled_from(['json', 'yaml']))
+    case['files'].append({'name': 'multi', 'fmt': fmt, 'parts': parts, 'node': None})
+    local_style = draw(st.booleans())
+    for f in case['files']:
+        nodes = list(f['parts'].values()) if f.get('parts') else [f['node']]
+        for nd in nodes:
+            for u in nd['uses']:
+                if u['file'] in chosen:
+                    u['part'] = case['files'][u['file']]['name']
+                    u['file'] = mi
+                    u['local'] = local_style and f.get('parts') is not None
+    if case['root'] in chosen:
+        pname = case['files'][case['root']]['name']
+        case['root'] = mi
+        if draw(st.booleans()):
+            parts[pname]['main_part'] = True
+        else:
+            case['root_part'] = pname
+            case['root_part_style'] = draw(st.sampled_from(['hash', 'arg']))
+            other = [p for p in parts if p != pname]
+            if other and draw(st.booleans()):
+                parts[other[0]]['main_part'] = True
+    # the files moved into the multi-config no longer exist on their own
+    for fi in chosen:
+        case['files'][fi] = {'name': case['files'][fi]['name'] + '_moved', 'fmt': 'json', 'node': {
+            'module': None, 'tasks_how': 'none', 'values': {}, 'uses': [], 'changed': []}}
+    return case
 
 
 @st.composite
